@@ -67,6 +67,7 @@ type trFunc struct {
 	returnsFresh bool
 	detached     map[types.Object]bool
 	neverNil     int
+	lbytes       map[types.Object]bool // round 4: []byte variables that hold the stored form of a ledger item
 }
 
 func newTrFunc(tr *translator, node *FuncNode, spec *funcSpec, info *types.Info) *trFunc {
@@ -77,7 +78,7 @@ func newTrFunc(tr *translator, node *FuncNode, spec *funcSpec, info *types.Info)
 		alias: map[types.Object]*aliasInfo{}, aliasBind: map[ast.Stmt]*aliasInfo{}, synth: map[*ast.SelectorExpr]bool{},
 		touch: map[types.Object]map[string]bool{}, writes: map[types.Object]map[string]bool{}, oracleUsed: map[string]bool{},
 		keyOverride: map[types.Object]string{},
-		funcLocals: map[types.Object]*funcLocal{}, xUses: map[*ast.Ident]types.Object{}, xTypes: map[ast.Expr]types.Type{},
+		funcLocals:  map[types.Object]*funcLocal{}, xUses: map[*ast.Ident]types.Object{}, xTypes: map[ast.Expr]types.Type{},
 		oracleOnly: map[types.Object]bool{}, detached: map[types.Object]bool{}}
 }
 
@@ -394,6 +395,13 @@ func (f *trFunc) analyse() {
 				return
 			}
 		}
+		if f.round4() {
+			// a nested field (embedded struct value / pointer field of it) of a variable
+			if o := f.fieldRoot(e); o != nil {
+				f.mutated[o] = true
+				return
+			}
+		}
 		f.problem(at, "assignment through `%s` (only fields of a variable can be assigned)", f.src(e))
 	}
 	ast.Inspect(body, func(n ast.Node) bool {
@@ -428,6 +436,45 @@ func (f *trFunc) analyse() {
 		return true
 	})
 	f.markCtrlMutations(markMut)
+	if f.spec != nil && f.spec.Persist != nil {
+		ast.Inspect(body, func(n ast.Node) bool {
+			if c, ok := n.(*ast.CallExpr); ok {
+				if _, isP := f.spec.Persist[f.src(c)]; isP {
+					if sel, ok := ast.Unparen(c.Fun).(*ast.SelectorExpr); ok {
+						if o := f.fieldRoot(sel.X); o != nil {
+							f.mutated[o] = true
+						}
+					}
+				}
+			}
+			return true
+		})
+	}
+	if f.inLedger() {
+		// updates of the IAVL tree behind a field
+		ast.Inspect(body, func(n ast.Node) bool {
+			if as, ok := n.(*ast.AssignStmt); ok {
+				for _, l := range as.Lhs {
+					if ix, ok := ast.Unparen(l).(*ast.IndexExpr); ok && isLedgerMap(f.typeOf(ix.X)) {
+						if sel, ok := ast.Unparen(ix.X).(*ast.SelectorExpr); ok {
+							markMut(sel.X, as)
+						}
+					}
+				}
+			}
+			if c, ok := n.(*ast.CallExpr); ok {
+				if sel, ok := ast.Unparen(c.Fun).(*ast.SelectorExpr); ok && isIavlTree(f.typeOf(sel.X)) && (sel.Sel.Name == "Set" || sel.Sel.Name == "Remove") {
+					markMut(sel.X, c)
+				}
+				if id, ok := ast.Unparen(c.Fun).(*ast.Ident); ok && id.Name == "delete" && len(c.Args) == 2 && isLedgerMap(f.typeOf(c.Args[0])) {
+					if sel, ok := ast.Unparen(c.Args[0]).(*ast.SelectorExpr); ok {
+						markMut(sel.X, c)
+					}
+				}
+			}
+			return true
+		})
+	}
 	// write-back loops: the range value variable is mutated
 	ast.Inspect(body, func(n ast.Node) bool {
 		r, ok := n.(*ast.RangeStmt)
@@ -743,6 +790,11 @@ func (f *trFunc) checkAliasing() {
 				}
 			}
 		case *ast.CallExpr:
+			if f.round4() && f.spec != nil && f.spec.Oracles != nil {
+				if _, isOracle := f.spec.Oracles[f.src(p)]; isOracle {
+					return true // read by a reviewed, side-effect free oracle call
+				}
+			}
 			if g, _ := f.callee(p); g != nil {
 				return true // passed to a whitelisted callee (threaded when it mutates)
 			}
@@ -778,6 +830,9 @@ func (f *trFunc) src(e ast.Expr) string { return types.ExprString(e) }
 
 // varType: Lean type of a variable (Option for possibly-nil pointers)
 func (f *trFunc) varType(o types.Object) string {
+	if f.lbytes[o] {
+		return "LBytes"
+	}
 	if k, ok := f.keyOverride[o]; ok {
 		ts, ok := f.tr.exp.Types[k]
 		if !ok {
@@ -801,7 +856,7 @@ func (f *trFunc) varType(o types.Object) string {
 func (f *trFunc) translate() {
 	d := f.node.Decl
 	sig := f.node.Obj.Type().(*types.Signature)
-	if sig.TypeParams() != nil || sig.RecvTypeParams() != nil {
+	if (sig.TypeParams() != nil || sig.RecvTypeParams() != nil) && !f.inLedger() {
 		f.problem(nil, "generic function")
 	}
 	f.used[f.spec.Lean] = true
@@ -872,6 +927,11 @@ func (f *trFunc) translate() {
 			if !f.oracleUsed[k] {
 				f.problem(nil, "oracle call `%s` of funcs.json does not occur in the function", k)
 			}
+		}
+	}
+	for k := range f.spec.Persist {
+		if !f.oracleUsed["persist:"+k] {
+			f.problem(nil, "persist call `%s` of funcs.json does not occur as a statement of the function", k)
 		}
 	}
 	if f.spec.OracleFuncs != nil {
